@@ -1,6 +1,8 @@
 // concretise a ghost number {type_code, cls, v} (prelude/ghostnum.h) as a real symengine object
 #pragma once
 #include "common.h"
+#include <cmath>
+#include <vector>
 #include <symengine/symbol.h>
 #include <symengine/logic.h>
 using namespace SymEngine;
@@ -28,4 +30,17 @@ static bool ghost_real(const Args &a, const std::string &p, double &out)
     if (cls == G_PINF) { out = HUGE_VAL; return true; }
     if (cls == G_NINF) { out = -HUGE_VAL; return true; }
     return false;
+}
+
+// sign / identity predicates of the real number kinds (unit sign_predicates, shared by C06, C29, C34)
+static int predicates(const Args &a)
+{
+    std::vector<double> ds = {0.0, -0.0, 1.5, -2.5, HUGE_VAL, -HUGE_VAL, std::nan("")};
+    if (has(a, "D.i")) ds.insert(ds.begin(), double_of(a, "D.i"));
+    for (double d : ds) { RCP<const Number> x = real_double(d);
+        if (x->is_zero() != (d == 0.0) || x->is_positive() != (d > 0.0) || x->is_negative() != (d < 0.0)) {
+            std::cout << "real_double(" << d << (std::signbit(d) ? " [sign bit set]" : "") << "): is_zero=" << x->is_zero() << " is_positive=" << x->is_positive() << " is_negative=" << x->is_negative() << "\nREPRODUCED: the sign predicates disagree with the value\n"; return 1; } }
+    for (long n = -2; n <= 2; n++) for (long dd = 1; dd <= 2; dd++) { RCP<const Number> x = Rational::from_two_ints(n, dd);
+        if (x->is_zero() != (n == 0) || x->is_positive() != (n > 0) || x->is_negative() != (n < 0)) { std::cout << x->__str__() << "\nREPRODUCED: the sign predicates disagree with the value\n"; return 1; } }
+    std::cout << "not reproduced\n"; return 0;
 }
